@@ -68,6 +68,7 @@ def evalLine (toks : List String) : String :=
       | some v => b2s (docBT (kind == "bts" || kind == "bfs") (kind == "bf" || kind == "bfs") v)
       | none => "bad-key"
     | ["bt", kind] => b2s (docBT (kind == "bts" || kind == "bfs") (kind == "bf" || kind == "bfs") a)
+    | ["btimm", kind] => b2s (docBT (kind == "bts" || kind == "bfs") (kind == "bf" || kind == "bfs") b)
     | ["st", t] => match docStore t a b with | some r => hex r | none => "bad-key"
     | _ => "bad-key"
   | _ => "bad-line"
